@@ -365,8 +365,19 @@ def jit_weight(evs):
 
 
 def check_C12(tier, seed):
+    wd = vlib.workdir("mc-C12")
+    mcs = {}
+    for rounds in (1, 2, 3) if tier == "quick" else (1, 2, 3, 5, 8):
+        r = run_tlc_cfg("MC_JitterCollect.tla", "SPECIFICATION Spec\nCONSTANTS\n  Rounds = %d\n  MaxStuck = 4\nINVARIANT ReadsExact\nINVARIANT ReturnsOnlyWhenCollected\n"
+                        "INVARIANT RotationsMatch\nINVARIANT StirOnlyAtEnd\nPROPERTY Terminates\nCHECK_DEADLOCK FALSE\n" % rounds, wd, "jc%d" % rounds, workers=1, timeout=600)
+        if not r["completed"]:
+            raise ToolError("MC_JitterCollect (rounds=%d) did not complete cleanly (model level):\n%s" % (rounds, r["out"][-2000:]))
+        mcs["rounds=%d" % rounds] = {"states_generated": r["states"], "distinct": r["distinct"]}
     S = corpora.c12_corpus(seed, tier)
     return trace_check("C12", tier, seed, S, "Trace_Jitter.tla", "Trace_Jitter.cfg", weight=jit_weight,
+                       extra_cov={"mc_model": {"module": "JitterCollect (one collection as Prime / Measure / StirReturn steps)", "configs": mcs,
+                                               "invariants": ["ReadsExact", "ReturnsOnlyWhenCollected", "RotationsMatch", "StirOnlyAtEnd"],
+                                               "liveness": "Terminates under strong fairness of non-stuck measurements"}},
                        rule="seeded operation histories (next_u32/next_u64/fill_bytes/timer_stats/set_rounds/clone) on JitterRng over scripted timers whose reading-level delta patterns (random, constant, linear, zero, backwards, arbitrary u64, large) drive every branch of the stuck test; each event logs the readings consumed; TLC recomputes LFSR folds, stuck tests, rotations, stir, memory-walk position, flag, value and the exact number of readings. distinct = distinct recorded events",
                        assumptions=JIT_ASSUME)
 
